@@ -30,6 +30,7 @@ func main() {
 	race := fs.Bool("race", false, "HB race check (run)")
 	maxPaths := fs.Int("maxpaths", 0, "path cap (run)")
 	randChoice := fs.Bool("randchoice", false, "rand.Float64 as a 3-way choice (run)")
+	knownRaces := fs.String("knownraces", "", "comma separated substrings of tolerated races (run)")
 	switch os.Args[1] {
 	case "check":
 		fs.Parse(os.Args[4:])
@@ -73,6 +74,9 @@ func main() {
 		}
 		fmt.Printf("loaded in %.1fs\n", l.LoadS)
 		in := Inst{Pkg: os.Args[2], Fn: os.Args[3], Args: args, Unwind: *unwind, Ctx: *ctx, Race: *race, MaxPaths: *maxPaths, RandChoice: *randChoice}
+		if *knownRaces != "" {
+			in.KnownRaces = strings.Split(*knownRaces, ",")
+		}
 		opt := options{workers: *workers, solver: *solver, timeoutMs: *timeout, samplesPer: 3, trace: *trace}
 		res, st, err := explore(l, []Inst{in}, opt)
 		if err != nil {
@@ -80,6 +84,7 @@ func main() {
 			os.Exit(2)
 		}
 		r := res[0]
+		fmt.Printf("races=%v\n", r.Races)
 		fmt.Printf("paths=%d outcomes=%v covers=%v queries=%d solver=%.2fs instrs=%d cpu=%.1fs\n", r.Paths, r.ByKind, r.Covers, st.Queries, st.SolverS, st.Instrs, r.Elapsed)
 		seen := map[string]int{}
 		for _, o := range r.Bad {
